@@ -47,6 +47,8 @@ def run(shard, rec, tier, seed):
                 rec.count("base-spec-rejected-by-generator")
                 continue
             rec.count("trees-staged")
+            if t.generator_reused:
+                rec.count("trees-generated-by-an-instance-that-read-an-earlier-revision")
             campaign.record_features(rec, feats)
             run_tree(campaign.CaptureRec(rec, ti), tier, seed, ti, spec, t)
 
